@@ -252,7 +252,72 @@ class Voc(Cont):
         return out
 
 
-CONTS = [Nist(), Voc()]
+class Xi(Cont):
+    """FastTracker 2 Extended Instrument: 298-byte instrument header + one 40-byte sample header, DPCM_8 / DPCM_16, mono, 44100 Hz"""
+    name, major, driver = "xi", 0x0F, "small3"
+    rates = [1, 8000, 44100, 44101, 2 ** 31 - 1]
+    lengths = [0, 1, 2, 3, 5, 8, 4097]
+    software = None
+
+    def formats(self, ctx):
+        fmts = Cont.formats(self, ctx)
+        if fmts and self.software is None:
+            # the tracker-name field is PACKAGE_NAME "-" PACKAGE_VERSION: a parameter of the model, taken from the library's first header
+            lines, rc, err = ctx.script("open h0 s0 w fmt=%08x ch=1 sr=44100\ndump s0\nclose h0\n" % fmts[0].word)
+            b = next((small2.parse_dump(l) for l in lines if l.startswith("len=") and "hex=" in l), b"")
+            self.software = b[44:64] if len(b) >= 64 else b" " * 20
+        return fmts
+
+    def channels(self, f):
+        return [1]
+
+    def quant(self, sr):
+        return 44100
+
+    def cfg(self, j):
+        return "codec=%02x endian=%d ch=%d sr=%d name=%s" % (j.f.codec, j.f.endian >> 28, j.ch, j.sr, self.software.hex())
+
+    def size_problems(self, j, b, frames):
+        out = []
+        if len(b) < 338:
+            return ["file shorter than the 338 bytes of the two headers"]
+        if b[:44] != b"Extended Instrument: Default Name          \x1a":
+            out.append("marker / instrument name %r" % b[:44])
+        if not b[44:64].startswith(b"libsndfile-") or b[64:66] != b"\x02\x01":
+            out.append("tracker name / version %r" % b[44:66])
+        if b[66:272].strip(b"\0") or b[272:274] != b"\x34\x12" or b[274:296].strip(b"\0") or b[296:298] != b"\x01\x00":
+            out.append("instrument tables / fade-out / sample count: %s" % b[260:298].hex())
+        ln, lb, le = struct.unpack("<III", b[298:310])
+        if (lb, le) != (0, 0) or b[310:316] != bytes([128, 0, 16 if j.f.codec == 0x51 else 0, 128, 0, 9]) or b[316:338] != b"Sample #1" + bytes(13):
+            out.append("sample header %s" % b[302:338].hex())
+        audio = len(b) - 338
+        if audio != j.n * j.bw:
+            out.append("file holds %d audio bytes, %d frames of %d bytes written" % (audio, j.n, j.bw))
+        if ln != frames % 2 ** 32:
+            out.append("sample length field %d, %d frames in the file" % (ln, frames))
+        return out
+
+    def hdr_len(self, b):
+        return 338
+
+    def mutants(self, b, rng):
+        out = []
+        for v in (0, 1, 2, 3, 15, 16, 17, 0x7FFF, 0x8000, 0xFFFF):
+            out.append(("count=%d" % v, b[:296] + struct.pack("<H", v) + b[298:]))
+        for v in (0, 1, len(b) - 338, len(b) - 337, 0x7FFFFFFF, 0x80000000, 0xFFFFFFFF):
+            out.append(("len=%d" % v, b[:298] + struct.pack("<I", v % 2 ** 32) + b[302:]))
+        for v in (0, 1, 2, 3, 16, 17, 32, 0xEF, 0xFF):
+            out.append(("flags=%d" % v, b[:312] + bytes([v]) + b[313:]))
+        # files with two and three sample headers (second / third length zero or not)
+        extra = bytes(40)
+        for cnt, sizes in ((2, (0,)), (2, (5,)), (3, (0, 0)), (3, (0, 7)), (3, (7, 0)), (16, (0,) * 15), (16, (0,) * 14 + (1,))):
+            hs = b"".join(struct.pack("<I", z) + extra[4:] for z in sizes)
+            out.append(("samples=%d:%s" % (cnt, "".join(str(min(z, 1)) for z in sizes)), b[:296] + struct.pack("<H", cnt) + b[298:338] + hs + b[338:]))
+        out.append(("samples=2:short", b[:296] + struct.pack("<H", 2) + b[298:338] + bytes(17)))
+        return out
+
+
+CONTS = [Nist(), Voc(), Xi()]
 
 
 def run(ctx, found=False, only=None):
